@@ -111,7 +111,7 @@ def steady(draw):
     if draw(st.integers(0, 3)) == 0 and n_expected <= 30:
         # the harness owns the schedule inside the (small) submission paths: per-thread delays at every source line of the
         # runner modules make concurrent submitters interleave at line granularity
-        sc["trace_delay"] = {"files": ["runners/asyncio_runner.py", "runners/trio_runner.py", "runners/thread_runner.py", "runners/meta_runner.py"],
+        sc["trace_delay"] = {"files": ["runners/asyncio_runner.py", "runners/trio_runner.py", "runners/thread_runner.py", "runners/meta_runner.py", "runners/service.py"],
                              "delays_ms": [0, draw(st.sampled_from([0, 1, 2])), draw(st.sampled_from([0, 1, 3])), draw(st.sampled_from([1, 2]))]}
     return sc
 
